@@ -45,6 +45,8 @@ class Emitter:
         s.thr = THREAD_START in mod.funcs
         s.tls = {g.name for g in mod.globals.values() if g.thread_local and not g.external} if s.thr else set()
         s.may_park = set()
+        # atomic-window injection (rt.h RT_ATOMIC_POINT): only modules whose harness arms the hook
+        s.ainject = 'vf_ainject_arm' in mod.funcs
 
     # -------------------------------------------------------------- types
     def resolve(s, ty):
@@ -406,6 +408,8 @@ class Emitter:
                 if op == 'phi':
                     continue
                 res = s.lname(I.res) if I.res is not None else None
+                if s.ainject and (op in ('cmpxchg', 'atomicrmw') or (op in ('load', 'store') and 'ordering' in I.extra)):
+                    w('  RT_ATOMIC_POINT();')
                 if op in BINOPS:
                     a, bb = I.args
                     ty = I.ty
